@@ -622,6 +622,27 @@ def r6_fresh_pattern_tree(ctx, sym):
               "level 2 the match root is the level-1 statement")
 
 
+def r7_no_state_between_matches(ctx, sym):
+    ctx.rule('R7', "what a pattern matches does not depend on the patterns matched before it in the process: no function "
+                   "of pedal.cait mutates a module-level or class-level object (directly, through a local alias of it, or "
+                   "by sharing the entries of a module-level template) - who-writes sweep shared with C13.R1")
+    from .c13 import inventory
+    n = 0
+    for key, m, fn, node, kind in inventory(ctx, sym):
+        if not (m.name.startswith('pedal.cait') or key.startswith('pedal.cait')):
+            continue
+        n += 1
+        q = getattr(fn, '_qualname', fn.name)
+        ctx.fail('R7', 'state:%s@%s' % (key, q), m, node,
+                 "%s changes the process-lifetime object %s (%s): later matches see what earlier ones left there" % (
+                     q, key, kind),
+                 "find_matches('def _f_(): pass', ...) first; afterwards find_matches('import math', 'import random') "
+                 "returns a match", function=q)
+    if not n:
+        ctx.ok('R7', 'sweep', sample='no run-time write to module- or class-level state in pedal.cait', nontrivial=False)
+    # (a rule whose expected count is zero: the sweep itself is exercised by C13.R1, which must find its known objects)
+
+
 def run(ctx):
     sym = Symbols(ctx.repo)
     mod = ctx.repo.module(MATCH)
@@ -631,6 +652,7 @@ def run(ctx):
     r4_single_binding(ctx, sym)
     r5_placeholders(ctx, sym, mod)
     r6_fresh_pattern_tree(ctx, sym)
+    r7_no_state_between_matches(ctx, sym)
     ctx.assume("that the composition of these guards over the recursion yields an embedding for every program/pattern "
                "pair is an inductive argument about the algorithm and is not decided; __expr__ rebinding "
                "(add_exp_to_sym_table overwrites without conflict, by its own docstring) is not decided")
